@@ -1506,6 +1506,7 @@ request_parse(u8 *packet, int length, struct evdns_server_port *port,
 
 	int i;
 	u16 trans_id, flags, questions, answers, authority, additional;
+	u16 opcode_bits;
 	struct server_request *server_req = NULL;
 	u32 ttl;
 	u16 type, class, rdlen;
@@ -1521,6 +1522,7 @@ request_parse(u8 *packet, int length, struct evdns_server_port *port,
 	GET16(additional);
 
 	if (flags & _QR_MASK) return -1; /* Must not be an answer. */
+	opcode_bits = flags & _OP_MASK;
 	flags &= (_RD_MASK|_CD_MASK); /* Only RD and CD get preserved. */
 
 	server_req = mm_malloc(sizeof(struct server_request));
@@ -1605,8 +1607,9 @@ request_parse(u8 *packet, int length, struct evdns_server_port *port,
 	port->refcnt++;
 
 	/* Only standard queries are supported. */
-	if (flags & _OP_MASK) {
-		evdns_server_request_respond(&(server_req->base), DNS_ERR_NOTIMPL);
+	if (opcode_bits) {
+		if (evdns_server_request_respond(&(server_req->base), DNS_ERR_NOTIMPL) < 0)
+			evdns_server_request_drop(&(server_req->base));
 		return -1;
 	}
 
